@@ -309,10 +309,20 @@ def seed(k: int) -> State:
         iff = ir.Node("", "If", [c.outputs[0]], attributes=[ir.AttrGraph("then_branch", then_g), ir.AttrGraph("else_branch", else_g)], name="if")
         g = ir.Graph([x], [iff.outputs[0]], nodes=[c, b, a, iff], name="g8")
         return State([g, then_g, else_g], [a, b, c, iff, pn, qn, e1, e2], [x, a.outputs[0], b.outputs[0], c.outputs[0], qo, pn.outputs[0], iff.outputs[0]])
+    if k == 9:
+        # nodes that hold the SAME value at several input positions, with None slots in between
+        a = ir.Value(name="x")
+        b = ir.Value(name="z")
+        cat = ir.Node("", "Concat", [b, None, a, b, None, b], name="cat")
+        mul = ir.Node("", "Mul", [cat.outputs[0], cat.outputs[0]], name="mul")
+        sq = ir.Node("", "Mul", [b, b], name="sq")
+        g = ir.Graph([a, b], [mul.outputs[0], sq.outputs[0]], nodes=[cat, mul, sq], name="g9")
+        free = ir.Value(name="free")
+        return State([g], [cat, mul, sq], [a, b, cat.outputs[0], mul.outputs[0], sq.outputs[0], free])
     raise ValueError(k)
 
 
-N_SEEDS = 9
+N_SEEDS = 10
 NAMES = ["x", "w", "fresh", "", None, "val_0", "z", "oi", "ii", "w_outer", "b_outer", "w_inner", "bias_inner"]
 
 
